@@ -27,6 +27,7 @@ import (
 type fileTracer struct {
 	f   *os.File
 	tid int
+	op  int // index of the operation being executed
 }
 
 func (t *fileTracer) add(kind, path string, data []byte, ok bool) {
@@ -38,7 +39,7 @@ func (t *fileTracer) add(kind, path string, data []byte, ok bool) {
 	if path != "" {
 		p = hex.EncodeToString([]byte(path))
 	}
-	fmt.Fprintf(t.f, "%d %s %s %s %v\n", t.tid, kind, p, d, ok)
+	fmt.Fprintf(t.f, "%d %s %s %s %v %d\n", t.tid, kind, p, d, ok, t.op)
 }
 
 type fileTracedBackend struct {
@@ -154,8 +155,9 @@ func init() {
 		}
 		tb.on = true
 		res := ""
-		for _, o := range ops {
+		for k, o := range ops {
 			var err error
+			tb.t.op = k
 			switch {
 			case o.kind == 'O':
 				var nr api.MutableKeyRing
@@ -347,10 +349,10 @@ func runProcs(sc scenario) *outcome {
 		sc.Buffer(make([]byte, 1<<20), 1<<26)
 		for sc.Scan() {
 			fl := strings.Fields(sc.Text())
-			if len(fl) != 5 {
+			if len(fl) != 6 {
 				panic("harness: bad trace line")
 			}
-			rc := rec{tid: core.Atoi(fl[0]), kind: fl[1], ok: fl[4] == "true"}
+			rc := rec{tid: core.Atoi(fl[0]), op: core.Atoi(fl[5]), kind: fl[1], ok: fl[4] == "true"}
 			if fl[2] != "-" {
 				b, _ := hex.DecodeString(fl[2])
 				rc.path = string(b)
